@@ -262,7 +262,11 @@ func VerifH_C19_wrappers() {
 	cur := uint64(3)
 	min := uint64(1)
 	if kind == 3 {
-		cur, min = 2007993, 2007990
+		if vRange("changesetDirectoryStartsAtOne", 0, 1) == 0 {
+			cur, min = 2007993, 2007990 // planet.osm.org
+		} else {
+			cur, min = 4, 1 // a mirror / fresh server numbered from 1
+		}
 	}
 	body := func(seq uint64, minuteOfHour int) []byte {
 		if kind == 3 {
